@@ -6,6 +6,7 @@ import (
 	"fmt"
 	"io"
 	"runtime/debug"
+	"sync/atomic"
 	"time"
 
 	"github.com/biogo/biogo/alphabet"
@@ -95,9 +96,22 @@ type Outcome struct {
 	FirstErr  int   // 1-based call index of the first non-nil error (0: none)
 	ErrAtCall []int // 1-based indices of calls that returned a non-EOF error
 	SawEOF    bool
+	Skipped   bool // not run: three readers of this process hang already
 }
 
 const watchdog = 20 * time.Second
+
+// hangs counts the watchdog expiries of this process. Every expiry leaves a goroutine behind that may spin
+// for good, so once a reader has been seen to hang the later calls (shrinking, the other sub-properties)
+// wait 3 s only: the verdict is in, what remains is to finish and report within the check's own time limit.
+var hangs atomic.Int32
+
+func currentWatchdog() time.Duration {
+	if hangs.Load() > 0 {
+		return 3 * time.Second
+	}
+	return watchdog
+}
 
 // RunTotal calls Read repeatedly on data and checks the totality clauses.
 func RunTotal(kind string, data []byte) (Outcome, *vlib.Failure) {
@@ -105,7 +119,15 @@ func RunTotal(kind string, data []byte) (Outcome, *vlib.Failure) {
 		o Outcome
 		f *vlib.Failure
 	}
+	if hangs.Load() >= 3 {
+		// three readers of this process spin already; whatever else would be learnt is not worth the
+		// processor time they take from the other shards (the hangs found are reported, shrinking keeps
+		// the last case that really hung)
+		vlib.Count("not-run-after-three-hangs", 1)
+		return Outcome{Skipped: true}, nil
+	}
 	ch := make(chan res, 1)
+	w := currentWatchdog()
 	go func() {
 		o, f := runTotal(kind, data)
 		ch <- res{o, f}
@@ -113,8 +135,9 @@ func RunTotal(kind string, data []byte) (Outcome, *vlib.Failure) {
 	select {
 	case r := <-ch:
 		return r.o, r.f
-	case <-time.After(watchdog):
-		return Outcome{}, vlib.Failf("hang", "%s reader: calls did not return within %v on %d bytes", kind, watchdog, len(data))
+	case <-time.After(w):
+		hangs.Add(1)
+		return Outcome{}, vlib.Failf("hang", "%s reader: calls did not return within %v on %d bytes", kind, w, len(data))
 	}
 }
 
